@@ -1,6 +1,7 @@
-(* C19: what the message signature depends on.  The three string signatures (Call-ID, From tag, Via
-   branch character classes) are parameters (Section variables of the model); everything else of
-   GetMsgSig and String is modelled.
+(* C19: what the message signature depends on.  GetMsgSig and String are modelled relative to the three string
+   signatures (Section variables, so that the theorems hold for any such functions); the functions themselves -
+   getStrCharsSig, GetCallIDSig relative to the place of the IP address, GetViaBrSig - are modelled in StrSig.v and tied
+   to the code by the correspondence run (also inside the message signature, which the model computes itself).
    PROVED: replies yield no signature; at most eight header entries; a header array too small for the
    message gives the same signature or the explicit truncated verdict; the text rendering has a fixed
    shape; the signature of a request is unchanged by inserting or removing a header of a type that
@@ -15,9 +16,13 @@
    order - its type, whether its name is one byte long (compact form) and, for Via, the branch signature
    of its value: two messages that agree on these get the same result (verdict included), whatever
    the buffers, offsets, other header values and names.  Chunking: C01 (chunked = one-shot objects).
-   PARTIAL: the character-class strings themselves (parameters of the model): metamorphic oracle +
-   a reference of the header part. *)
-From Sipsp Require Import Harness Tables SigWalk SigInv SigCoherent SigFun.
+   Character classes (StrSigClass.v, C19_string_signature_depends_only_on_character_classes): getStrCharsSig - for any
+   skipped region - gives the same result on two texts whose bytes have the same classes position by position (digit,
+   hex letter a-f, hex letter A-F, other lower case, other upper case, each reserved character as itself, anything else);
+   so do the From-tag signature and the Call-ID signature for a given place of the IP address.
+   PARTIAL: where ContainsIP6 finds the address (supplied by the code in the correspondence run; ContainsIP4 is modelled:
+   C20); the Via branch signature as a function of the Via text (model + correspondence + oracle). *)
+From Sipsp Require Import Harness Tables SigWalk SigInv SigCoherent SigFun StrSig StrSigClass.
 Theorem C19_replies_yield_no_signature : forall cs ss vs m buf, msg_request m = false ->
   get_msg_sig cs ss vs m buf = Some (msgsig0, EEmpty).
 Proof. exact reply_no_sig. Qed.
@@ -91,5 +96,37 @@ Theorem C19_unfingerprinted_types_have_no_signature_id : forall h, neutral (h_ty
 Proof. exact neutral_id. Qed.
 Example C19_neutral_examples : neutral HdrNone /\ neutral HdrOther /\ neutral HdrExpires /\ ~ neutral HdrVia /\ ~ neutral HdrFrom.
 Proof. unfold neutral. repeat split; try (vm_compute; reflexivity); vm_compute; discriminate. Qed.
+(* ---- the string signatures depend only on character classes --------------------------------------------------------------------------------- *)
+Theorem C19_string_signature_depends_only_on_character_classes : forall s s' skip_offs skip_len,
+  map bclass s = map bclass s' -> str_chars_sig s skip_offs skip_len = str_chars_sig s' skip_offs skip_len.
+Proof. exact str_chars_sig_classes. Qed.
+Theorem C19_from_tag_signature_classes : forall s s', map bclass s = map bclass s' -> str_sig0 s = str_sig0 s'.
+Proof. exact from_tag_sig_classes. Qed.
+Theorem C19_callid_signature_classes : forall has_ip ip_offs ip_len s s', map bclass s = map bclass s' ->
+  callid_sig_at has_ip ip_offs ip_len s = callid_sig_at has_ip ip_offs ip_len s'.
+Proof. exact callid_sig_classes. Qed.
+Theorem C19_character_class_means : forall c,
+  bclass c = (if negb (res_flag c =? 0) then KReserved c
+              else if (48 <=? c) && (c <=? 57) then KDigit
+              else if (97 <=? c) && (c <=? 102) then KHexLower
+              else if (65 <=? c) && (c <=? 70) then KHexUpper
+              else if (97 <=? c) && (c <=? 122) then KLower
+              else if (65 <=? c) && (c <=? 90) then KUpper
+              else KNone) /\
+  (res_flag c <> 0 <-> In c [64; 46; 58; 45; 95; 42; 43; 47; 61; 124]).
+Proof.
+  intros c. split; [reflexivity|]. unfold res_flag. split.
+  - intros H. repeat match type of H with context [if ?a =? ?b then _ else _] => let E := fresh "E" in destruct (a =? b) eqn:E; [apply N.eqb_eq in E; subst; cbn; tauto|] end. congruence.
+  - intros H. cbn [In] in H. repeat destruct H as [<-|H]; try discriminate. contradiction.
+Qed.
+(* satisfiable and evaluated: the hex / block guess of two texts with the same classes *)
+Example C19_classes_example :
+  map bclass [97;49;98;50;99;51;100;52;45;101;53] = map bclass [102;57;101;56;100;55;99;54;45;98;48] /\
+  str_chars_sig [97;49;98;50;99;51;100;52;45;101;53] 0 0 = (8192 + 32768 + 64, 0) /\
+  str_chars_sig [102;57;101;56;100;55;99;54;45;98;48] 0 0 = (8192 + 32768 + 64, 0) /\
+  viabr_sig_len [83;59;98;114;97;110;99;104;61;122;57;104;71;52;98;75;97;49;98;50;99;51;100;52] = Some (8192, 8).
+Proof. repeat split; vm_compute; reflexivity. Qed.
+Print Assumptions C19_string_signature_depends_only_on_character_classes.
+Print Assumptions C19_callid_signature_classes.
 Print Assumptions C19_other_headers_do_not_matter.
 Print Assumptions C19_other_headers_do_not_matter_for_parsed_messages.
